@@ -24,11 +24,11 @@ RLess(a, b) == a[1] * b[2] < b[1] * a[2]
 REq(a, b) == a[1] * b[2] = b[1] * a[2]
 
 OpCanon(op) == CASE op \in {"==", "eq"} -> "eq"
-                 [] op \in {"!=", "neq"} -> "ne"
+                 [] op \in {"!=", "neq", "ne"} -> "ne"
                  [] op \in {"<", "lt", "&lt;"} -> "lt"
                  [] op \in {">", "gt", "&gt;"} -> "gt"
-                 [] op \in {"<=", "leq", "&lt;="} -> "le"
-                 [] op \in {">=", "geq", "&gt;="} -> "ge"
+                 [] op \in {"<=", "leq", "&lt;=", "le"} -> "le"
+                 [] op \in {">=", "geq", "&gt;=", "ge"} -> "ge"
 NegOp(o) == CASE o = "eq" -> "ne" [] o = "ne" -> "eq" [] o = "lt" -> "ge" [] o = "ge" -> "lt"
               [] o = "gt" -> "le" [] o = "le" -> "gt"
 B2K(b) == IF b THEN "T" ELSE "F"
@@ -112,5 +112,6 @@ Dual(e) == CASE e.k = "cond" -> DualCond(e)
                                 groups |-> [i \in 1 .. Len(e.groups) |-> Dual(e.groups[i])]]
              [] e.k = "or" -> [k |-> "and", conds |-> [i \in 1 .. Len(e.conds) |-> DualCond(e.conds[i])],
                                groups |-> [i \in 1 .. Len(e.groups) |-> Dual(e.groups[i])]]
-\* NegOp is canonical ("eq"...), which OpCanon accepts as a spelling too
+\* NegOp yields canonical names ("eq", "ne", "lt", "gt", "le", "ge"), which OpCanon accepts as spellings too
+\* (internal to the specification; the library's own table has no "ne" / "le" / "ge")
 =============================================================================
